@@ -51,7 +51,7 @@ static int ref_ci_eq(const unsigned char *s, unsigned n, const char *lit)
 
 /* reserved (RFC 2606/6761/7686): last label in {test, example, invalid, localhost, onion} or the
  * last two labels are example.{com,net,org}; whole labels, ASCII case-insensitive.  s has no root dot. */
-static int ref_special(const unsigned char *s, unsigned n)
+static int ref_reserved(const unsigned char *s, unsigned n)
 {
     int last = -1, prev = -1;   /* index of the last dot and of the dot before it */
     unsigned i;
